@@ -14,6 +14,8 @@ pub enum Act {
     /// first observation of a direct host (core-like hosts start at construction)
     Observe,
     Resolve(u16),
+    /// bridge hosts: a response that does not decode
+    Malformed(u16),
     Drop(u16),
     Abort(u8),
 }
@@ -29,6 +31,7 @@ pub fn step_json(s: &Step) -> Value {
     let a = match s.act {
         Act::Observe => "observe".to_string(),
         Act::Resolve(h) => format!("resolve(h{h})"),
+        Act::Malformed(h) => format!("undecodable-response(h{h})"),
         Act::Drop(h) => format!("drop(h{h})"),
         Act::Abort(k) => format!("abort(a{k})"),
     };
@@ -58,6 +61,7 @@ pub struct HInfo {
     pub kind: Kind,
     pub resolves: u8,
     pub dropped: bool,
+    pub malformed: u8,
     pub label: u16,
     /// bridge hosts: the id this request travelled under
     pub wire: Option<u32>,
@@ -139,6 +143,32 @@ impl Checker {
                     kind,
                     self.handles[h as usize].resolves
                 ),
+            });
+        }
+        self.alts = next;
+        Ok(())
+    }
+
+    pub fn apply_malformed(&mut self, h: u16, observed: Option<Res>) -> Result<(), Failure> {
+        let mut next = BTreeSet::new();
+        let mut predicted = BTreeSet::new();
+        for s in &self.alts {
+            let mut s = s.clone();
+            let r = s.malformed(h);
+            predicted.insert(r);
+            if observed == Some(r) {
+                next.insert(s);
+            }
+        }
+        self.handles[h as usize].malformed += 1;
+        if self.handles[h as usize].kind == Kind::Once {
+            self.handles[h as usize].resolves += 1;
+        }
+        self.dirty = true;
+        if next.is_empty() {
+            return Err(Failure {
+                key: format!("undecodable-response/{:?}-expected-{:?}", observed, predicted.iter().next().unwrap()),
+                what: format!("undecodable response to h{h}: bridge answered {:?}, the reference allows {:?}", observed, predicted),
             });
         }
         self.alts = next;
@@ -339,6 +369,7 @@ impl Checker {
                 kind: k,
                 resolves: 0,
                 dropped: false,
+                malformed: 0,
                 label: obs.effects[i].label,
                 wire: obs.wire_ids.get(i).copied(),
             });
@@ -410,6 +441,9 @@ impl Checker {
             } else {
                 hi.kind == Kind::Once || hi.resolves < b.items_per_stream
             };
+            if !self.host.can_drop() && !late && !id_reused && hi.malformed == 0 && self.late_used < b.max_late && hi.kind != Kind::Never {
+                out.push(Step { act: Act::Malformed(h), observe: true });
+            }
             if allowed {
                 out.push(Step { act: Act::Resolve(h), observe: true });
                 if direct && self.silent_used < b.max_silent {
@@ -535,6 +569,11 @@ pub fn execute(host: HostKind, p: &P, history: &[Step], hints: &[bool]) -> (Host
             Act::Observe => {}
             Act::Resolve(hd) => {
                 let (r, o) = h.resolve(hd, fresh_value(i), hints.get(i).copied().unwrap_or(true));
+                res = r;
+                call_obs = o;
+            }
+            Act::Malformed(hd) => {
+                let (r, o) = h.malformed(hd);
                 res = r;
                 call_obs = o;
             }
@@ -728,6 +767,15 @@ impl<'a> Explorer<'a> {
                         was_call = true;
                     }
                 }
+            }
+            Act::Malformed(h) => {
+                if let Some(c) = &call {
+                    if let Some(p) = &c.panic {
+                        return Err(Failure { key: format!("panic/{}", panic_key(p)), what: format!("undecodable response to h{h} panicked: {p}") });
+                    }
+                }
+                chk.late_used += 1;
+                chk.apply_malformed(h, res)?;
             }
             Act::Drop(h) => {
                 let hi = &chk.handles[h as usize];
